@@ -549,21 +549,24 @@ pub fn compute_layout(g: &VolGeom, part_start: u32, root_entries: u32) -> Layout
     }
 }
 
-/// Root directory entries a FAT16 volume needs for this spec.
+/// Root directory entries a FAT16 volume needs for this spec. The count need
+/// not be a multiple of 16: the specification rounds the region up to whole
+/// sectors (RootDirSectors = (RootEntCnt * 32 + BytsPerSec - 1) / BytsPerSec).
 pub fn root_entries_for(v: &VolSpec) -> u32 {
     if v.geom.fat32 {
         return 0;
     }
     let used = count_slots(&v.root) + if v.geom.label { 1 } else { 0 };
-    let want = match v.root_pad_free {
-        Some(p) => used + (p as u32 % 16),
-        None => used.max(v.geom.root_entries as u32),
-    };
-    let r = div_up(want.max(1), 16) * 16;
-    if v.root_pad_free.is_some() {
-        r
-    } else {
-        r.max(16)
+    match v.root_pad_free {
+        Some(p) => div_up((used + (p as u32 % 16)).max(1), 16) * 16,
+        None => {
+            let want = v.geom.root_entries as u32;
+            if want >= used.max(1) {
+                want
+            } else {
+                div_up(used.max(1), 16) * 16
+            }
+        }
     }
 }
 
